@@ -116,7 +116,7 @@ def evaluate(spec):
                 cut_inside_record = True
     kinds = "+".join(sorted(c["kind"] for c in spec["conns"]))
     return {"sig": sig, "detail": detail, "nontrivial": len(distinct) >= 3 and (cut_inside_record or "quic" in kinds), "evals": evals,
-            "labels": ["kinds:" + kinds, "keys:" + ("dsb-per-connection" if spec.get("dsb_per_conn") else "file"), "cuts:%s" % ("<=20" if n <= 20 else "21-40" if n <= 40 else "41+"), "growth-steps:%d" % min(len(distinct), 9)]}
+            "labels": ["kinds:" + kinds, "keys:" + ("dsb-per-connection" if spec.get("dsb_per_conn") else "file"), "cuts:%s" % ("<=20" if n <= 20 else "21-40" if n <= 40 else "41+"), "times:" + (spec.get("times") or "epoch"), "growth-steps:%d" % min(len(distinct), 9)]}
 
 
 @st.composite
@@ -138,8 +138,14 @@ def spec_strategy(draw, tier):
             c = draw(strategies.quic_conn(max_steps=6, ep=ep))
         c["seed"] = c["seed"] * 8 + i
         conns.append(c)
-    return {"conns": conns, "order": draw(st.lists(st.integers(0, 3), min_size=1, max_size=8)), "tseed": draw(st.integers(1, 500)),
-            "dsb_per_conn": draw(st.sampled_from([False, False, True]))}
+    sc = {"conns": conns, "order": draw(st.lists(st.integers(0, 3), min_size=1, max_size=8)), "tseed": draw(st.integers(1, 500)),
+          "dsb_per_conn": draw(st.sampled_from([False, False, True]))}
+    # "cut after any packet" is about the order of the packets in the file; their times need not follow it (captures merged from
+    # several interfaces), and relative times start at 0
+    tm = draw(st.sampled_from([None, None, "disorder", "disorder", "zero"]))
+    if tm:
+        sc["times"] = tm
+    return sc
 
 
 def late_handshake_specs():
